@@ -54,3 +54,104 @@ Print Assumptions C16_integers.
 Print Assumptions C16_roundtrip_bare.
 Print Assumptions C16_roundtrip_gtxns.
 Print Assumptions C16_comment.
+
+(* ------------------------------------------------------------------------------------------------------------
+   Extension (second round): theorems from Lemmas/{WalkLemmas,OutputLemmas,TypeExec,NoMiss2,ParseLemmas2,PaddingLemmas}.v *)
+From Coq Require Import List String NArith ZArith Bool Arith.
+From Tealer Require Import Tables Leaves LeafPrelude Syntax Parse Cfg StackAst Keys Analysis Domains Detect Group Output Runs Eval Exec InsExec Paths WalkLemmas OutputLemmas TypeExec NoMiss2 ParseLemmas2 PaddingLemmas.
+
+(* array fields (all entries of the regenerated table, all indices) *)
+Theorem C16_roundtrip_txna :
+  forall (txt cls : string) (v : N),
+       In (txt, (cls, v)) tx_array_fields ->
+       forall n : N,
+       parse_line (str_of_instr (IOther "Txna" (PField (cls, Some (Z.of_N n)) :: nil))) =
+       Ok (Some (IOther "Txna" (PField (cls, Some (Z.of_N n)) :: nil))).
+Proof. exact @roundtrip_txna. Qed.
+
+Theorem C16_roundtrip_gtxna :
+  forall (txt cls : string) (v : N),
+       In (txt, (cls, v)) tx_array_fields ->
+       forall i n : N,
+       parse_line (str_of_instr (IOther "Gtxna" (PInt i :: PField (cls, Some (Z.of_N n)) :: nil))) =
+       Ok (Some (IOther "Gtxna" (PInt i :: PField (cls, Some (Z.of_N n)) :: nil))).
+Proof. exact @roundtrip_gtxna. Qed.
+
+(* array index in decimal / hex / octal *)
+Theorem C16_array_index_spellings :
+  forall (txt cls : string) (v i n : N),
+       In (txt, (cls, v)) tx_array_fields ->
+       let x := Ok (Some (IOther "Txna" (PField (cls, Some (Z.of_N n)) :: nil))) in
+       let y := Ok (Some (IOther "Gtxna" (PInt i :: PField (cls, Some (Z.of_N n)) :: nil))) in
+       parse_line ("txna " ++ cls ++ " " ++ string_of_N n) = x /\
+       parse_line ("txna " ++ cls ++ " " ++ "0x" ++ ParseLemmas.hex_of_N n) = x /\
+       parse_line ("txna " ++ cls ++ " " ++ "0" ++ ParseLemmas.oct_of_N n) = x /\
+       parse_line ("gtxna " ++ string_of_N i ++ " " ++ cls ++ " " ++ string_of_N n) = y /\
+       parse_line ("gtxna " ++ ("0x" ++ ParseLemmas.hex_of_N i) ++ " " ++ cls ++ " " ++ "0" ++ ParseLemmas.oct_of_N n) = y /\
+       parse_line ("gtxna " ++ ("0" ++ ParseLemmas.oct_of_N i) ++ " " ++ cls ++ " " ++ "0x" ++ ParseLemmas.hex_of_N n) = y.
+Proof. exact @array_index_spellings. Qed.
+
+(* byte literals (hex words, quoted strings, decoded base64/base32) *)
+Theorem C16_roundtrip_byte :
+  forall b : string, lit_tok b -> parse_line (str_of_instr (IOther "Byte" (PStr b :: nil))) = Ok (Some (IOther "Byte" (PStr b :: nil))).
+Proof. exact @roundtrip_byte. Qed.
+
+Theorem C16_roundtrip_bytecblock :
+  forall l : list string,
+       Forall lit_tok l -> parse_line (str_of_instr (IOther "Bytecblock" (PStrs l :: nil))) = Ok (Some (IOther "Bytecblock" (PStrs l :: nil))).
+Proof. exact @roundtrip_bytecblock. Qed.
+
+(* every byte-literal spelling parses, and its printed (normalised) form parses back to the same instruction *)
+Theorem C16_bytes_parse_print_parse :
+  forall (kw : string) (ts : list string) (b : string),
+       kw = "byte" \/ kw = "pushbytes" ->
+       Forall tok_ok ts ->
+       byte_forms ts (b :: nil) -> exists i : instr, parse_line (join " " (kw :: ts)) = Ok (Some i) /\ parse_line (str_of_instr i) = Ok (Some i).
+Proof. exact @bytes_parse_print_parse. Qed.
+
+(* unknown opcodes are kept verbatim as unsupported *)
+Theorem C16_unknown_verbatim :
+  forall ts : list string,
+       ts <> nil ->
+       Forall tok_ok ts ->
+       ParseLemmas.head_generic (hd "" ts) = true ->
+       first_rule (join " " ts) parser_rules = None ->
+       parse_line (join " " ts) = Ok (Some (IOther "UnsupportedInstruction" (PStr (join " " ts) :: nil))).
+Proof. exact @unknown_verbatim. Qed.
+
+(* named constants *)
+Theorem C16_named_constants :
+  forall (name : string) (n : N),
+       In (name, n) transaction_type_to_tealer_type_names ->
+       parse_line ("int " ++ name) = Ok (Some (IInt (IAName name))) /\
+       parse_line ("pushint " ++ name) = Ok (Some (IPushInt (IAName name))) /\
+       parse_line (str_of_instr (IInt (IAName name))) = Ok (Some (IInt (IAName name))) /\
+       (forall intcs : option (list N), is_int_push_ins intcs (IInt (IAName name)) = IntName name) /\
+       transaction_type_to_tealer_type (IntName name) = transaction_type_to_tealer_type (IntNum n) /\
+       transaction_type_to_tealer_type (IntNum n) <> None /\ parse_line ("int " ++ string_of_N n) = Ok (Some (IInt (IANum n))).
+Proof. exact @named_txn_type_line. Qed.
+
+(* REFUTED (finding D10b): `method "sig"` prints without its quotes and does not parse back *)
+Theorem C16_method_roundtrip_refuted :
+  exists (l : string) (i : instr),
+         parse_line l = Ok (Some i) /\
+         parse_line (str_of_instr i) <> Ok (Some i) /\
+         l = ("method " ++ quoted "add(uint64,uint64)uint64")%string /\
+         str_of_instr i = "method add(uint64,uint64)uint64" /\ parse_line (str_of_instr i) = Err "ParseError: incorrect byte format".
+Proof. exact @roundtrip_method_refuted. Qed.
+
+(* REFUTED (finding D26): a quoted byte string ending in an escaped backslash is rejected *)
+Theorem C16_quoted_backslash_refuted :
+  parse_line ("byte " ++ String dq ("a" ++ String bsl (String bsl (String dq "")))) = Err "ParseError: missing closing quote".
+Proof. exact @quoted_backslash_refuted. Qed.
+
+Print Assumptions C16_roundtrip_txna.
+Print Assumptions C16_roundtrip_gtxna.
+Print Assumptions C16_array_index_spellings.
+Print Assumptions C16_roundtrip_byte.
+Print Assumptions C16_roundtrip_bytecblock.
+Print Assumptions C16_bytes_parse_print_parse.
+Print Assumptions C16_unknown_verbatim.
+Print Assumptions C16_named_constants.
+Print Assumptions C16_method_roundtrip_refuted.
+Print Assumptions C16_quoted_backslash_refuted.
